@@ -1,6 +1,6 @@
 (* C14 — Array is a list of fixed-width items over one bit buffer (statements; ArrayProofs.v).
    mk its tr = concat its ++ tr is the abstraction "data = item encodings followed by trailing bits". *)
-From BS Require Import Prims BitsCore Mutators SeqProofs ArrayM ArrayProofs ArraySlice.
+From BS Require Import Prims BitsCore Mutators SeqProofs ArrayM ArrayProofs ArraySlice ArrayMut.
 Open Scope Z_scope.
 Theorem C14_len_and_trailing : forall w its tr, 0 < w -> wfA w its tr -> arr_len w (mk its tr) = zlen its /\ trailing w (mk its tr) = tr.
 Proof. intros. split; [now apply arr_len_mk|now apply trailing_mk]. Qed.
@@ -33,6 +33,52 @@ Proof. intros. now apply pop_is_list_pop. Qed.
 Example C14_slicing_nonvacuous :
   arr_getslice 2 [true;false; false;true; true;true; false;false; true] (mkslice (Some 3) None (Some (-2))) = Ok [false;false; false;true].
 Proof. vm_compute. reflexivity. Qed.
+(* ANY data d is "items then trailing bits" (all items w bits, fewer than w trailing bits), so the statements below are about every Array *)
+Theorem C14_data_is_items_then_trailing : forall w, 0 < w -> forall d, wfA w (items w d) (trailing w d) /\ d = mk (items w d) (trailing w d).
+Proof. exact data_is_items_then_trailing. Qed.
+(* del a[key], any key: the items become the Python list with the slice deleted (item j survives iff j is not in the range of key.indices(len)),
+   trailing bits untouched; the only failure is a zero step *)
+Theorem C14_slice_deletion : forall w, 0 < w -> forall d k,
+  match slice_indices k (arr_len w d) with
+  | Err e => arr_delslice w d k = Err e
+  | Ok (a, b, c) => exists d', arr_delslice w d k = Ok d' /\ items w d' = remove_at (items w d) 0 (range_list a b c) /\ trailing w d' = trailing w d
+  end.
+Proof. exact C14_delslice. Qed.
+(* a[key] = values: unit step - items a..max(a,b) replaced by any number of new items; extended step - refused unless the counts agree, else the j-th
+   position of the range receives the j-th value; all other items, the item count and the trailing bits unchanged *)
+Theorem C14_slice_assignment_unit_step : forall w, 0 < w -> forall d k news a b, Forall (fun e : bits => zlen e = w) news ->
+  slice_indices k (arr_len w d) = Ok (a, b, 1) ->
+  exists d', arr_setslice w d k news = Ok d' /\
+    items w d' = firstn (Z.to_nat a) (items w d) ++ news ++ skipn (Z.to_nat (Z.max a b)) (items w d) /\ trailing w d' = trailing w d.
+Proof. exact C14_setslice_step1. Qed.
+Theorem C14_slice_assignment_extended_step : forall w, 0 < w -> forall d k news a b c, Forall (fun e : bits => zlen e = w) news ->
+  slice_indices k (arr_len w d) = Ok (a, b, c) -> c <> 1 ->
+  if zlen news =? range_len a b c then
+    exists d', arr_setslice w d k news = Ok d' /\ trailing w d' = trailing w d /\ zlen (items w d') = zlen (items w d) /\
+      (forall j, 0 <= j < zlen news -> znth [] (items w d') (a + j * c) = znth [] news j) /\
+      (forall i, 0 <= i -> ~ In i (range_list a b c) -> znth [] (items w d') i = znth [] (items w d) i)
+  else arr_setslice w d k news = Err ValueError.
+Proof. exact C14_setslice_extended. Qed.
+Theorem C14_extend_values : forall w, 0 < w -> forall d news, Forall (fun e : bits => zlen e = w) news ->
+  if zlen d mod w =? 0 then exists d', arr_extend w d news = Ok d' /\ items w d' = items w d ++ news /\ trailing w d' = []
+  else trailing w d <> [] /\ arr_extend w d news = Err ValueError.
+Proof. exact C14_extend. Qed.
+Theorem C14_extend_with_an_array : forall w, 0 < w -> forall d other,
+  if zlen d mod w =? 0 then exists d', arr_extend_array w d other = Ok d' /\ items w d' = items w d ++ items w other /\ trailing w d' = trailing w other
+  else arr_extend_array w d other = Err ValueError.
+Proof. exact C14_extend_array. Qed.
+Theorem C14_reverse_items : forall w, 0 < w -> forall d,
+  if zlen d mod w =? 0 then exists d', arr_reverse w d = Ok d' /\ items w d' = rev (items w d) /\ trailing w d' = []
+  else trailing w d <> [] /\ arr_reverse w d = Err ValueError.
+Proof. exact C14_reverse. Qed.
+Theorem C14_tolist_and_iteration : forall w, 0 < w -> forall d, arr_tolist w d = items w d /\ arr_iter w d = items w d.
+Proof. intros w Hw d. split; [now apply C14_tolist|now apply C14_iter]. Qed.
+Theorem C14_equals_and_copy : forall w, 0 < w -> forall d1 d2,
+  (arr_equals d1 d2 = true <-> items w d1 = items w d2 /\ trailing w d1 = trailing w d2) /\ arr_equals (arr_copy d1) d1 = true.
+Proof. intros w Hw d1 d2. split; [now apply C14_equals|now apply C14_copy]. Qed.
+Theorem C14_count_items : forall w, 0 < w -> forall (V : Type) (dec : bits -> V) eqv d v,
+  arr_count w dec eqv d v = zlen (filter (fun it => eqv (dec it) v) (items w d)).
+Proof. intros w Hw V dec eqv d v. now apply C14_count. Qed.
 Print Assumptions C14_len_and_trailing.
 Print Assumptions C14_index.
 Print Assumptions C14_item_assignment.
@@ -42,3 +88,13 @@ Print Assumptions C14_append_refused_with_trailing_bits.
 Print Assumptions C14_insert.
 Print Assumptions C14_slicing.
 Print Assumptions C14_pop.
+Print Assumptions C14_data_is_items_then_trailing.
+Print Assumptions C14_slice_deletion.
+Print Assumptions C14_slice_assignment_unit_step.
+Print Assumptions C14_slice_assignment_extended_step.
+Print Assumptions C14_extend_values.
+Print Assumptions C14_extend_with_an_array.
+Print Assumptions C14_reverse_items.
+Print Assumptions C14_tolist_and_iteration.
+Print Assumptions C14_equals_and_copy.
+Print Assumptions C14_count_items.
